@@ -81,6 +81,37 @@ def p_noyypanic(wd, backend):
     return [] if rc == 0 else ["%%option noyypanic: the user's yypanic() clashes with the generated one (%s): %s" % (backend, (e.strip().splitlines() or ["?"])[0][:200])]
 
 
+def p_nodefault(wd, arg):
+    """-s / %option nodefault: the scanner compiles in every back end and stops with 'flex scanner jammed' on unmatched input"""
+    backend, how = arg
+    mains = {'nr': "int main(void) { yy_scan_string(\"aq\"); while (yylex()) ; return 0; }",
+             'r': "int main(void) { yyscan_t s; yylex_init(&s); yy_scan_string(\"aq\", s); while (yylex(s)) ; yylex_destroy(s); return 0; }",
+             'c99': "int main(void) { yyscan_t s; yylex_init(&s); yy_scan_string(\"aq\", s); while (yylex(s)) ; yylex_destroy(s); return 0; }",
+             'cxx': "#include <sstream>\nint main() { std::istringstream in(\"aq\"); yyFlexLexer l(&in, 0); while (l.yylex()) ; return 0; }"}
+    bopt = {'nr': "", 'r': "reentrant", 'c99': 'emit="c99"', 'cxx': "c++"}[backend]
+    opts = (bopt + (" nodefault" if how == "opt" else "")).strip()
+    # an incomplete rule set: q is matched by no rule
+    text = ("%%option noyywrap nounput noinput %s\n%%%%\na+   { return 1; }\nb    { return 2; }\n%%%%\n%s\n" % (opts, mains[backend]))
+    with open(os.path.join(wd, "p.l"), "w") as f:
+        f.write(text)
+    out = "p.cc" if backend == 'cxx' else "p.c"
+    rc, o, e = run([_FLEX] + (["-s"] if how == "cli" else []) + ["-o", out, "p.l"], cwd=wd, timeout=60)
+    if rc:
+        return ["flex fails (nodefault, %s, %s): %s" % (backend, how, e.decode(errors='replace')[:200])]
+    if backend == 'cxx':
+        rc, o, e = run(["g++", "-std=gnu++17", "-w", "-I" + os.path.dirname(_FLEX), "-o", "p.exe", out], cwd=wd, timeout=180)
+    else:
+        rc, o, e = run(["gcc", "-std=gnu11", "-w", "-D_GNU_SOURCE", "-o", "p.exe", out], cwd=wd, timeout=120)
+    if rc:
+        return ["nodefault (%s, %s): the generated scanner does not compile: %s" % (backend, "-s" if how == "cli" else "%option",
+                                                                                  (e.decode(errors='replace').strip().splitlines() or ["?"])[0][:200])]
+    rc, o, e = run([os.path.join(wd, "p.exe")], cwd=wd, timeout=20)
+    if rc == 0 or b"jammed" not in e:
+        return ["nodefault (%s, %s): unmatched input does not stop the scanner with 'flex scanner jammed' (rc=%s, stderr=%s)" % (
+            backend, how, rc, e.decode(errors='replace')[:80])]
+    return []
+
+
 def p_lex_compat(wd, how):
     text = spec("lex-compat" if how == "opt" else "", "", "#ifndef YY_FLEX_LEX_COMPAT\n#error no YY_FLEX_LEX_COMPAT\n#endif\nint main(void) { return 0; }")
     rc, err = flex(wd, text, ["-l"] if how == "cli" else [])
@@ -333,7 +364,8 @@ def p_cli_vs_option_base(wd, name):
     return []
 
 
-PROBES = [("main", p_main, ["opt", "cli"]), ("extra-type", p_extra_type, ["r", "c99"]), ("noyypanic", p_noyypanic, ["nr", "r"]),
+PROBES = [("nodefault", p_nodefault, [(b, h) for b in ("nr", "r", "c99", "cxx") for h in ("opt", "cli")]),
+          ("main", p_main, ["opt", "cli"]), ("extra-type", p_extra_type, ["r", "c99"]), ("noyypanic", p_noyypanic, ["nr", "r"]),
           ("lex-compat", p_lex_compat, ["opt", "cli"]), ("prefix", p_prefix, [("nr", ""), ("r", ""), ("r", "bison-bridge"), ("r", "bison-bridge bison-locations"), ("nr", "stack yylineno"),
                                                                        ("r", "stack yylineno"), ("nr", "array"), ("r", "tables-file=\"zz.tbl\""), ("nr", "tables-file=\"zz.tbl\"")]), ("yylmax", p_yylmax, [None]), ("bufsize", p_bufsize, [None]),
           ("splices", p_splices, ["nr", "r"]), ("post-action", p_post_action, [None]), ("user-routines", p_user_routines, ["nr", "r", "c99"]),
